@@ -1079,6 +1079,61 @@ example : interior (fun _ _ => 1) (fun q => locate (.polygon q))
     (.polygon ⟨[⟨0, 0⟩, ⟨4, 0⟩, ⟨4, 1⟩, ⟨1, 1⟩, ⟨1, 3⟩, ⟨0, 3⟩, ⟨0, 0⟩], []⟩) = some ⟨1 / 2, 3 / 2⟩ := by
   decide +kernel
 
+/-- a point `Inside` one member polygon is `Inside` the `MultiPolygon` -/
+private theorem locate_multiPolygon_of_member (ps : List Poly) (poly : Poly) (hp : poly ∈ ps) (x : Pt)
+    (h : locate (.polygon poly) x = .inside) : locate (.multiPolygon ps) x = .inside := by
+  have h' : locateParts ⟨[], [], [poly]⟩ x = .inside := h
+  rw [Geo.Proofs.Spec.locateParts_eq] at h'
+  have hin : Geo.Proofs.Spec.inAnyPoly [poly] x = true := by
+    by_contra hc
+    simp only [hc, Bool.false_eq_true, if_false, Geo.Proofs.Spec.onAnyCurve, List.any_nil] at h'
+    split at h' <;> simp at h'
+  show locateParts ⟨[], [], ps⟩ x = .inside
+  apply Geo.Proofs.Spec.locateParts_inside_of_poly
+  unfold Geo.Proofs.Spec.inAnyPoly at hin ⊢
+  simp only [List.any_cons, List.any_nil, Bool.or_false] at hin
+  exact List.any_eq_true.2 ⟨poly, hp, hin⟩
+
+/-- [T] `interior_multipolygon_inside_simple`: for a non-empty `MultiPolygon` whose members are
+hole-free with simple exterior rings the model's `interior_point` exists and is `Inside` (it is the
+verified scan midpoint of a member of maximal width, `mpoly_interior_widest`). -/
+theorem interior_multipolygon_inside_simple (len : Pt → Pt → Rat) (ps : List Poly) (hne : ps ≠ [])
+    (hall : ∀ p ∈ ps, p.ints = [] ∧ ringSimple p.ext = true) :
+    ∃ x, interior len (fun q => locate (.polygon q)) (.multiPolygon ps) = some x ∧
+      locate (.multiPolygon ps) x = .inside := by
+  simp only [interior]
+  cases h : mpolyInterior (fun q => locate (.polygon q)) ps with
+  | none =>
+    exfalso
+    rw [mpolyInterior_eq_none, List.all_eq_true] at h
+    obtain ⟨p, hp⟩ := List.exists_mem_of_ne_nil ps hne
+    have he := h p hp
+    rw [List.isEmpty_iff] at he
+    have := (ringSimple_spec (hall p hp).2).2.1
+    rw [he] at this
+    simp [dedupConsecutive, segs] at this
+  | some x =>
+    refine ⟨x, rfl, ?_⟩
+    obtain ⟨poly, hp, w, hs, _⟩ := mpoly_interior_widest _ ps x h
+    cases hb : getBoundingRect poly.ext with
+    | none =>
+      exfalso
+      rw [getBoundingRect_eq_none] at hb
+      have := (ringSimple_spec (hall poly hp).2).2.1
+      rw [hb] at this
+      simp [dedupConsecutive, segs] at this
+    | some r =>
+      obtain ⟨mn, mx⟩ := r
+      obtain ⟨x', w', hs', hi⟩ := interior_strict_ringSimple poly mn mx (hall poly hp).1 (hall poly hp).2 hb
+      rw [hs] at hs'
+      simp only [Option.some.injEq, Prod.mk.injEq] at hs'
+      rw [← hs'.1] at hi
+      exact locate_multiPolygon_of_member ps poly hp x hi
+
+example : interior (fun _ _ => 1) (fun q => locate (.polygon q))
+    (.multiPolygon [⟨[⟨0, 0⟩, ⟨1, 0⟩, ⟨1, 1⟩, ⟨0, 0⟩], []⟩,
+      ⟨[⟨5, 0⟩, ⟨9, 0⟩, ⟨9, 4⟩, ⟨5, 4⟩, ⟨5, 0⟩], []⟩]) = some ⟨7, 2⟩ := by decide +kernel
+
 /-! ### GeometryCollection: a member of the highest dimension present -/
 
 private theorem interiorCands_mem (len : Pt → Pt → Rat) (locOf : Poly → Pt → Pos) :
